@@ -7,7 +7,10 @@
 // iteration reads (all other atomics of the library read their latest value).
 //   h_stop <script> <trace-out>
 // A second logging thread Y (logical thread 2, a real thread that logs on command and then ends) has its own queue, named WY.
-// script: init | X log | X stop | Y log | Y exit | X join | B <ir> <iw> <iwy> | end        (1-based message indexes, 0 = latest)
+// `X flushcall` starts logger->flush_log() on a helper thread (logical thread 0) and returns once the request is committed; the
+// local flag of that call is named FL when it is constructed; `X flushret` waits for the call to return (it does once B has
+// stored the flag) and reports whether the sink writes of X's statements are ordered before the caller (wclk <= its clock).
+// script: init | X log | X stop | X flushcall | X flushret | Y log | Y exit | X join | B <ir> <iw> <iwy> | end   (1-based, 0 = latest)
 #include <algorithm>
 #include <any>
 #include <array>
@@ -91,16 +94,25 @@ using VFrontend = quill::FrontendImpl<FO>;
 using VLogger = quill::LoggerImpl<FO>;
 
 static std::atomic<long> g_delivered{0}, g_delivered_y{0};
+static shim::Clock g_wclk;
 struct CountSink : quill::Sink
 {
   void write_log(quill::MacroMetadata const*, uint64_t, std::string_view, std::string_view, std::string const&, std::string_view,
                  quill::LogLevel, std::string_view, std::string_view, std::vector<std::pair<std::string, std::string>> const*,
                  std::string_view msg, std::string_view) override
   {
-    count(msg);
+    {
+      // a sink write is a plain access of the backend thread: it ticks the thread's clock; X's statements remember it
+      std::lock_guard<std::recursive_mutex> lk(shim::g_mx);
+      if (shim::g_thr >= 0)
+      {
+        ++shim::g_clk[shim::g_thr].c[shim::g_thr];
+        if (msg.empty() || msg[0] != 'Y') g_wclk = shim::g_clk[shim::g_thr];
+      }
+    }
+    if (!msg.empty() && msg[0] == 'Y') g_delivered_y.fetch_add(1);
     g_delivered.fetch_add(1);
   }
-  void count(std::string_view m) { if (!m.empty() && m[0] == 'Y') g_delivered_y.fetch_add(1); }
   void flush_sink() override {}
 };
 
@@ -109,13 +121,6 @@ static std::mutex s_mx;
 static std::condition_variable s_cv;
 static bool s_armed = false, s_parked = false, s_go = false, s_stop_done = false;
 static long s_wloads = 0, s_wyloads = 0;
-// --- the second logging thread
-static std::mutex y_mx;
-static std::condition_variable y_cv;
-static int y_cmd = 0;          // 0 none, 1 warm-up (set-up mode), 2 log, 3 exit
-static bool y_ack = false;
-static quill::detail::ThreadContext* y_ctx = nullptr;
-static long y_committed = 0;
 
 static void park(std::string const& nm, int t)
 {
@@ -132,11 +137,65 @@ static void park(std::string const& nm, int t)
   s_parked = false;
 }
 
-static void wait_parked_or_done()
+// --- a logging thread that executes commands (X: logical thread 0, Y: logical thread 2)
+struct Worker
 {
-  std::unique_lock<std::mutex> l(s_mx);
-  s_cv.wait(l, [] { return s_parked || s_stop_done; });
-}
+  int logical;
+  char tag;
+  std::mutex mx;
+  std::condition_variable cv;
+  int cmd = 0;            // 0 none, 1 warm-up (set-up mode), 2 log, 3 exit the thread, 4 flush_log(), 5 Backend::stop()
+  bool ack = true;        // the last command has completed
+  bool flush_visible = false;
+  long committed = 0;
+  quill::detail::ThreadContext* ctx = nullptr;
+  std::thread th;
+  void start(VLogger* logger)
+  {
+    th = std::thread([this, logger] {
+      shim::g_thr = -1;
+      while (true)
+      {
+        int c;
+        { std::unique_lock<std::mutex> l(mx); cv.wait(l, [this] { return cmd != 0; }); c = cmd; cmd = 0; }
+        if (c == 1) { LOG_INFO(logger, "warm {}", 0); ctx = quill::detail::get_local_thread_context<FO>(); }
+        else if (c == 2)
+        {
+          shim::g_thr = logical;
+          if (tag == 'Y') LOG_INFO(logger, "Y statement {}", committed); else LOG_INFO(logger, "X statement {}", committed);
+          shim::g_thr = -1;
+          ++committed;
+        }
+        else if (c == 4)
+        {
+          shim::g_thr = logical;
+          logger->flush_log();
+          { std::lock_guard<std::recursive_mutex> lk(shim::g_mx); flush_visible = shim::leq(g_wclk, shim::g_clk[logical]); }
+          shim::g_thr = -1;
+        }
+        else if (c == 5)
+        {
+          shim::g_thr = logical;
+          quill::Backend::stop();
+          shim::g_thr = -1;
+          { std::lock_guard<std::mutex> l(s_mx); s_stop_done = true; }
+          s_cv.notify_all();
+        }
+        { std::lock_guard<std::mutex> l(mx); ack = true; }
+        cv.notify_all();
+        if (c == 3) { shim::g_thr = logical; return; }      // thread exit: ~ScopedThreadContext marks the context invalid
+      }
+    });
+  }
+  void post(int c) { { std::lock_guard<std::mutex> l(mx); cmd = c; ack = false; } cv.notify_all(); }
+  void wait() { std::unique_lock<std::mutex> l(mx); cv.wait(l, [this] { return ack; }); }
+  void run(int c) { post(c); wait(); }
+  size_t wsize()
+  {
+    std::lock_guard<std::recursive_mutex> lk(shim::g_mx);
+    return ctx->get_spsc_queue_union().bounded_spsc_queue._atomic_writer_pos.h.size();
+  }
+};
 
 int main(int argc, char** argv)
 {
@@ -149,17 +208,9 @@ int main(int argc, char** argv)
   auto emit = [](std::string const& s) { std::lock_guard<std::recursive_mutex> lk(shim::g_mx); shim::g_out << s << "\n"; shim::g_out.flush(); };
 
   VLogger* logger = nullptr;
-  std::thread ythread;
-  auto ycommand = [](int c)
-  {
-    { std::lock_guard<std::mutex> l(y_mx); y_cmd = c; y_ack = false; }
-    y_cv.notify_all();
-    std::unique_lock<std::mutex> l(y_mx);
-    y_cv.wait(l, [] { return y_ack; });
-  };
-  long committed = 0;
-  bool stop_requested = false;
-  std::thread stopper;
+  static Worker X, Y;
+  X.logical = 0; X.tag = 'X';
+  Y.logical = 2; Y.tag = 'Y';
   std::string line;
   while (std::getline(in, line))
   {
@@ -176,37 +227,27 @@ int main(int argc, char** argv)
       quill::Backend::start(bo);
       auto sink = VFrontend::create_or_get_sink<CountSink>("count");
       logger = VFrontend::create_or_get_logger("L", std::move(sink));
-      // warm-up in set-up mode: the thread context exists and is in the backend's cache, the queue is empty again
-      LOG_INFO(logger, "warm {}", 0);
+      // warm-up in set-up mode: both thread contexts exist and are in the backend's cache (X's first), the queues are empty again
+      X.start(logger);
+      X.run(1);
       while (g_delivered.load() < 1) std::this_thread::sleep_for(std::chrono::microseconds{50});
-      ythread = std::thread([logger] {
-        shim::g_thr = -1;
-        while (true)
-        {
-          int cmd;
-          { std::unique_lock<std::mutex> l(y_mx); y_cv.wait(l, [] { return y_cmd != 0; }); cmd = y_cmd; y_cmd = 0; }
-          if (cmd == 1) { LOG_INFO(logger, "warm y {}", 0); y_ctx = quill::detail::get_local_thread_context<FO>(); }
-          else if (cmd == 2) { shim::g_thr = 2; LOG_INFO(logger, "Y statement {}", y_committed); shim::g_thr = -1; ++y_committed; }
-          { std::lock_guard<std::mutex> l(y_mx); y_ack = true; }
-          y_cv.notify_all();
-          if (cmd == 3) { shim::g_thr = 2; return; }      // thread exit: ~ScopedThreadContext marks the context invalid
-        }
-      });
-      ycommand(1);
+      Y.start(logger);
+      Y.run(1);
       while (g_delivered.load() < 2) std::this_thread::sleep_for(std::chrono::microseconds{50});
       auto& bw = quill::detail::BackendManager::instance()._backend_worker;
-      auto& q = quill::detail::get_local_thread_context<FO>()->get_spsc_queue_union().bounded_spsc_queue;
+      auto& qx = X.ctx->get_spsc_queue_union().bounded_spsc_queue;
+      auto& qy = Y.ctx->get_spsc_queue_union().bounded_spsc_queue;
       {
         std::lock_guard<std::recursive_mutex> lk(shim::g_mx);
         shim::g_names[&bw._is_worker_running] = "R";
-        shim::g_names[&q._atomic_writer_pos] = "W";
-        shim::g_names[&y_ctx->get_spsc_queue_union().bounded_spsc_queue._atomic_writer_pos] = "WY";
-        shim::g_names[&y_ctx->_valid] = "V";        // named for its memory orders only: never scripted, reads the newest message
+        shim::g_names[&qx._atomic_writer_pos] = "W";
+        shim::g_names[&qy._atomic_writer_pos] = "WY";
+        shim::g_names[&Y.ctx->_valid] = "V";        // named for its memory orders only: never scripted, reads the newest message
       }
       // arm: from now on B parks at the head of its loop
       { std::lock_guard<std::mutex> l(s_mx); s_armed = true; }
-      wait_parked_or_done();
-      // baseline: the two named objects start with one message each, known to everybody
+      { std::unique_lock<std::mutex> l(s_mx); s_cv.wait(l, [] { return s_parked; }); }
+      // baseline: the named objects start with one message each, known to everybody
       {
         std::lock_guard<std::recursive_mutex> lk(shim::g_mx);
         auto collapse = [](auto& a)
@@ -216,11 +257,12 @@ int main(int argc, char** argv)
           last.ev = shim::Clock{};
           a.h.clear();
           a.h.push_back(last);
-          a.view[0] = a.view[1] = 0;
+          for (auto& v : a.view) v = 0;
         };
         collapse(bw._is_worker_running);
-        collapse(q._atomic_writer_pos);
-        collapse(y_ctx->get_spsc_queue_union().bounded_spsc_queue._atomic_writer_pos);
+        collapse(qx._atomic_writer_pos);
+        collapse(qy._atomic_writer_pos);
+        g_wclk = shim::Clock{};
       }
       g_delivered.store(0);
       g_delivered_y.store(0);
@@ -231,26 +273,32 @@ int main(int argc, char** argv)
       ss >> op;
       if (op == "log")
       {
-        shim::g_thr = 0;
-        LOG_INFO(logger, "statement {}", committed);
-        shim::g_thr = -1;
-        ++committed;
-        emit("{\"e\":\"committed\",\"n\":" + std::to_string(committed) + "}");
+        X.run(2);
+        emit("{\"e\":\"committed\",\"n\":" + std::to_string(X.committed) + "}");
+      }
+      else if (op == "flushcall")
+      {
+        size_t const before = X.wsize();
+        { std::lock_guard<std::recursive_mutex> lk(shim::g_mx); shim::g_autoname = "FL"; }
+        X.post(4);
+        while (X.wsize() == before) std::this_thread::sleep_for(std::chrono::microseconds{50});      // the request is committed
+        emit("{\"e\":\"flushcall\",\"committed\":" + std::to_string(X.committed) + "}");
+      }
+      else if (op == "flushret")
+      {
+        X.wait();
+        emit("{\"e\":\"flushed\",\"delivered\":" + std::to_string(g_delivered.load() - g_delivered_y.load()) + ",\"visible\":" +
+             (X.flush_visible ? "true" : "false") + "}");
       }
       else if (op == "join")
       {
         std::lock_guard<std::recursive_mutex> lk(shim::g_mx);
         shim::g_clk[0] = shim::join(shim::g_clk[0], shim::g_clk[2]);
-        shim::g_out << "{\"e\":\"joined\",\"ycommitted\":" << y_committed << "}\n";
+        shim::g_out << "{\"e\":\"joined\",\"ycommitted\":" << Y.committed << "}\n";
       }
       else if (op == "stop")
       {
-        stopper = std::thread([] {
-          shim::g_thr = 0;
-          quill::Backend::stop();
-          { std::lock_guard<std::mutex> l(s_mx); s_stop_done = true; }
-          s_cv.notify_all();
-        });
+        X.post(5);
         // wait until the stop request (the exchange on the running flag) has been made
         while (true)
         {
@@ -260,8 +308,7 @@ int main(int argc, char** argv)
           }
           std::this_thread::sleep_for(std::chrono::microseconds{50});
         }
-        stop_requested = true;
-        emit("{\"e\":\"stopreq\",\"committed\":" + std::to_string(committed) + "}");
+        emit("{\"e\":\"stopreq\",\"committed\":" + std::to_string(X.committed) + "}");
       }
     }
     else if (c == "Y")
@@ -269,13 +316,13 @@ int main(int argc, char** argv)
       ss >> op;
       if (op == "log")
       {
-        ycommand(2);
-        emit("{\"e\":\"ycommitted\",\"n\":" + std::to_string(y_committed) + "}");
+        Y.run(2);
+        emit("{\"e\":\"ycommitted\",\"n\":" + std::to_string(Y.committed) + "}");
       }
       else if (op == "exit")
       {
-        ycommand(3);
-        ythread.join();      // (the native join only makes sure the thread's destructors have run; the model's join is `X join`)
+        Y.run(3);
+        Y.th.join();      // (the native join only makes sure the thread's destructors have run; the model's join is `X join`)
         emit("{\"e\":\"yexited\"}");
       }
     }
@@ -309,11 +356,10 @@ int main(int argc, char** argv)
       emit("{\"e\":\"bstep\",\"wloads\":" + std::to_string(wl) + ",\"wyloads\":" + std::to_string(wyl) + ",\"finished\":" + (fin ? "true" : "false") + "}");
       if (fin)
         emit("{\"e\":\"stopped\",\"delivered\":" + std::to_string(g_delivered.load() - g_delivered_y.load()) + ",\"delivered_y\":" +
-             std::to_string(g_delivered_y.load()) + ",\"committed\":" + std::to_string(committed) + "}");
+             std::to_string(g_delivered_y.load()) + ",\"committed\":" + std::to_string(X.committed) + "}");
     }
     else if (c == "end") break;
   }
-  (void)stop_requested;
   {
     std::lock_guard<std::recursive_mutex> lk(shim::g_mx);
     shim::g_out << "{\"e\":\"end\",\"badchoice\":" << (shim::g_bad_choice ? "true" : "false") << "}\n";
